@@ -139,7 +139,32 @@ fn main() {
                         let (msk, mpk) = setup(&cc);
                         let msk = Mutex::new(msk);
                         let mut out = vec![]; let mut errs = vec![];
+                        // thread 0 also feeds degenerate but WELL-FORMED objects (as an attacker would through deserialize) to
+                        // the shared instance: a panic inside a call would poison the generator lock for every other thread
+                        let hostile: Vec<Vec<u8>> = if stress && ti == 0 {
+                            let (_, e) = cc.encaps(&mpk, &ap("D::a")).unwrap(); let b = e.serialize().unwrap();
+                            let head = 16 + 1 + 2 * PT;   // tag, trap count, two traps
+                            vec![[&b[..head], &[0u8, 0u8][..]].concat(), [&b[..head], &[1u8, 0u8][..]].concat(), [&b[..16], &[0u8, 0u8, 0u8][..]].concat()]
+                        } else { vec![] };
                         for k in 0..n {
+                            if !hostile.is_empty() && k % 40 == 7 {
+                                for hb in &hostile {
+                                    if let Ok(x) = cosmian_cover_crypt::XEnc::deserialize(hb) {
+                                        let m = msk.lock().unwrap();
+                                        let r = std::panic::catch_unwind(std::panic::AssertUnwindSafe(|| { let _ = x.tracing_level(); let _ = cc.recaps(&m, &mpk, &x); }));
+                                        if r.is_err() { errs.push("a degenerate but well-formed encapsulation made a call PANIC while holding the generator lock".to_string()); }
+                                        drop(m);
+                                        let u = { let mut m = msk.lock().unwrap(); cc.generate_user_secret_key(&mut m, &ap("D::a")) };
+                                        if let Ok(u) = u { let r = std::panic::catch_unwind(std::panic::AssertUnwindSafe(|| { let _ = cc.decaps(&u, &x); }));
+                                            if r.is_err() { errs.push("decapsulation of a degenerate but well-formed encapsulation PANICKED while holding the generator lock".to_string()); } }
+                                    }
+                                    if let Ok(u0) = UserSecretKey::deserialize(&[0u8, 0u8, 0u8]) {
+                                        let (_, e) = cc.encaps(&mpk, &ap("D::a")).unwrap();
+                                        let r = std::panic::catch_unwind(std::panic::AssertUnwindSafe(|| { let _ = cc.decaps(&u0, &e); }));
+                                        if r.is_err() { errs.push("decapsulation with an empty user key PANICKED while holding the generator lock".to_string()); }
+                                    }
+                                }
+                            }
                             // cheap calls (encaps, PKE, header) dominate; key generation / rekey / recaps grow the master key and run every 20th call
                             let kk = if stress { k + ti } else if k % 20 == 19 { [3, 4, 6][(k / 20) % 3] } else { [0, 1, 2][k % 3] };
                             // own master key per thread for the mutating calls (distinct key objects), shared instance
